@@ -12,6 +12,13 @@ FNS = ['read_coils', 'read_discrete_inputs', 'read_holding_registers', 'read_inp
        'write_register', 'write_coils', 'write_registers', 'mask_write_register', 'readwrite_registers',
        'diag_query_data', 'read_exception_status']
 
+# requests that have no mixin method and go through client.execute(): the rest of "every request type" (C08)
+XFNS = ['diag', 'diag', 'get_comm_event_counter', 'get_comm_event_log', 'report_slave_id', 'read_file_record',
+        'write_file_record', 'read_fifo_queue', 'read_device_information']
+# diagnostic sub-functions that are answered (4 = force listen only: never answered, by definition)
+DIAG_ECHO = (1, 3, 10, 20)                     # the normal response echoes the request
+DIAG_VALUE = (2, 11, 12, 13, 14, 15, 16, 17, 18)   # the response carries a 16-bit counter / register
+
 STUBS = {
     'real': ['pymodbus.client.sync (ModbusTcpClient / ModbusUdpClient / ModbusSerialClient / ModbusTlsClient: connect, close, _send, _recv, _wait_for_data)',
              'pymodbus.transaction (ModbusTransactionManager.execute/_transact/_recv, Dict/FifoTransactionManager, retry loop)',
@@ -33,9 +40,11 @@ def no_delim(v):
 class OpGen(object):
     """Generates ops with pairwise distinct request PDUs and unique reply values."""
 
-    def __init__(self, rng, framing):
+    def __init__(self, rng, framing, extended=0.0):
         self.rng = rng
         self.framing = framing
+        self.extended = extended        # share of ops drawn from the extended request set
+        self._used = set()
         self.addr = rng.randrange(0, 200)
         self.val = rng.randrange(1, 40000)
 
@@ -53,7 +62,17 @@ class OpGen(object):
 
     def op(self, fn=None, unit=None, exc_rate=0.15, maxn=None):
         rng = self.rng
+        if fn is None and self.extended and rng.random() < self.extended:
+            for _ in range(20):
+                x = self.xop(rng.choice(XFNS), unit if unit is not None else 1, exc_rate)
+                if x is not None:
+                    return x
         fn = fn or rng.choice(FNS)
+        if fn in XFNS:
+            x = self.xop(fn, unit if unit is not None else 1, exc_rate)
+            if x is not None:
+                return x
+            fn = 'read_holding_registers'
         if fn == 'read_exception_status':
             # the only request without any field: keep request PDUs pairwise distinct within a
             # scenario (the scripted peer tells transactions apart by content)
@@ -104,6 +123,103 @@ class OpGen(object):
         if rng.random() < exc_rate:
             reply = {'exc': rng.choice([1, 2, 3, 4, 6, 10, 11])}
         return {'fn': fn, 'args': args, 'unit': unit, 'reply': reply}
+
+    def _bytes(self, n):
+        out = bytearray()
+        while len(out) < n:
+            out += self.uval().to_bytes(2, 'big')
+        return bytes(out[:n])
+
+    def xop(self, fn, unit, exc_rate):
+        """An op of the extended request set with a spec-conformant reply ('raw') and the values the
+        returned object has to carry ('expect'); None if this draw is not usable (field-less request already
+        used in this scenario, delimiter bytes on the binary framing)."""
+        rng = self.rng
+        if fn in cli.FIELDLESS:
+            if fn in self._used:
+                return None
+        args, expect, raw = {}, {}, None
+        if fn == 'diag':
+            sub = rng.choice(DIAG_ECHO + DIAG_VALUE + (21, 21))
+            if sub in DIAG_ECHO:
+                data = {1: rng.choice([0x0000, 0xFF00]), 3: rng.choice([0x0A00, 0x0D00, 0x2C00]), 10: 0, 20: 0}[sub]
+                args = {'sub': sub, 'data': data}
+                expect = {'sub': sub, 'words': [data]}
+            elif sub in DIAG_VALUE:
+                v = self.uval()
+                args = {'sub': sub, 'data': 0}
+                raw = bytes([8, 0, sub]) + v.to_bytes(2, 'big')
+                expect = {'sub': sub, 'words': [v]}
+            else:
+                oper = rng.choice([3, 4])
+                args = {'sub': 21, 'data': oper}
+                if oper == 4:
+                    expect = {'sub': 21, 'words': [4]}     # clear: echo
+                else:
+                    words = [self.uval() for _ in range(54)]
+                    raw = bytes([8, 0, 21, 0, 3, 0, 108]) + b''.join(w.to_bytes(2, 'big') for w in words)
+                    expect = {'sub': 21, 'words': [3, 108] + words}
+        elif fn == 'get_comm_event_counter':
+            st, cnt = rng.choice([0x0000, 0xFFFF]), self.uval()
+            raw = bytes([11]) + st.to_bytes(2, 'big') + cnt.to_bytes(2, 'big')
+            expect = {'busy': st == 0xFFFF, 'count': cnt}
+        elif fn == 'get_comm_event_log':
+            st, ec, mc = rng.choice([0x0000, 0xFFFF]), self.uval(), self.uval()
+            ev = list(self._bytes(rng.choice([0, 1, 2, 7, rng.randint(0, 64)])))
+            raw = bytes([12, 6 + len(ev)]) + st.to_bytes(2, 'big') + ec.to_bytes(2, 'big') + mc.to_bytes(2, 'big') + bytes(ev)
+            expect = {'busy': st == 0xFFFF, 'event_count': ec, 'message_count': mc, 'events': ev}
+        elif fn == 'report_slave_id':
+            ident = self._bytes(rng.choice([1, 2, 5, rng.randint(1, 40)]))
+            run = rng.choice([0x00, 0xFF])
+            raw = bytes([17, len(ident) + 1]) + ident + bytes([run])
+            expect = {'ident': ident.hex(), 'run': run == 0xFF}
+        elif fn == 'read_fifo_queue':
+            vals = [self.uval() for _ in range(rng.choice([0, 1, 2, 5, 31, rng.randint(0, 31)]))]
+            args = {'address': self.next_addr()}
+            raw = bytes([24]) + (2 + 2 * len(vals)).to_bytes(2, 'big') + len(vals).to_bytes(2, 'big') + \
+                b''.join(v.to_bytes(2, 'big') for v in vals)
+            expect = {'values': vals}
+        elif fn == 'read_file_record':
+            recs = [[rng.randint(1, 9), self.next_addr() % 10000, rng.randint(1, 6)] for _ in range(rng.randint(1, 3))]
+            datas = [self._bytes(2 * n) for (_, _, n) in recs]
+            body = b''.join(bytes([len(d) + 1, 6]) + d for d in datas)
+            args = {'records': recs}
+            raw = bytes([20, len(body)]) + body
+            expect = {'record_data': [d.hex() for d in datas]}
+        elif fn == 'write_file_record':
+            recs = [[rng.randint(1, 9), self.next_addr() % 10000, self._bytes(2 * rng.randint(1, 6)).hex()]
+                    for _ in range(rng.randint(1, 3))]
+            args = {'records': recs}
+            expect = {'records': recs}           # echo
+        elif fn == 'read_device_information':
+            code = rng.choice([1, 2, 3, 4])
+            first = {1: 0, 2: 3, 3: 0x80, 4: rng.choice([0, 1, 2, 0x80])}[code]
+            nobj = 1 if code == 4 else rng.randint(1, 4)
+            objs = [[first + i, self._bytes(rng.choice([1, 3, 8, rng.randint(1, 30)])).hex()] for i in range(nobj)]
+            more = rng.choice([0x00, 0x00, 0xFF]) if code != 4 else 0
+            nxt = (objs[-1][0] + 1) if more else 0
+            conf = rng.choice([0x01, 0x02, 0x03, 0x81, 0x82, 0x83])
+            args = {'read_code': code, 'object_id': first}
+            raw = bytes([43, 14, code, conf, more, nxt, nobj]) + \
+                b''.join(bytes([i, len(bytes.fromhex(v))]) + bytes.fromhex(v) for (i, v) in objs)
+            expect = {'read_code': code, 'conformity': conf, 'more': more, 'next': nxt, 'objects': objs}
+        else:
+            raise ValueError(fn)
+        reply = {'expect': expect}
+        if raw is not None:
+            reply['raw'] = raw.hex()
+        op = {'fn': fn, 'args': args, 'unit': unit, 'reply': reply}
+        if rng.random() < exc_rate:
+            op['reply'] = {'exc': rng.choice([1, 2, 3, 4, 6, 10, 11])}
+        if self.framing == 'binary' and (frame_has_delim('binary', unit, cli.request_pdu(op))
+                                         or frame_has_delim('binary', unit, cli.reply_pdu(op))):
+            return None
+        key = cli.request_pdu(op).hex()
+        if key in self._used:
+            return None         # request PDUs stay pairwise distinct within a scenario
+        self._used.add(key)
+        self._used.add(fn)
+        return op
 
     @staticmethod
     def _fix_bits(bits):
@@ -183,6 +299,8 @@ def values_match(op, r):
         got = [bool(b) for b in getattr(r, 'bits', [])][:len(rep['bits'])]
         if got != rep['bits']:
             return False, 'bits differ from what the server sent'
+    elif 'expect' in rep:
+        return expect_match(op['fn'], rep['expect'], r)
     elif 'raw' in rep:
         pass
     else:
@@ -195,6 +313,60 @@ def values_match(op, r):
             return False, 'echo %s/%s, sent %s/%s' % (r.address, r.count, a['address'], len(a['values']))
         if fn == 'mask_write_register' and (r.address, r.and_mask, r.or_mask) != (a['address'], a['and_mask'], a['or_mask']):
             return False, 'mask echo differs'
+    return True, ''
+
+
+def _words(m):
+    if isinstance(m, (bytes, bytearray)):
+        m = bytes(m)
+        return [(m[i] << 8) | m[i + 1] for i in range(0, len(m) - 1, 2)]
+    if isinstance(m, (list, tuple)):
+        return [int(x) for x in m]
+    if isinstance(m, int):
+        return [m]
+    return m
+
+
+def expect_match(fn, ex, r):
+    """Extended request set: does the returned object carry the values of the reply the server sent?"""
+    try:
+        if fn == 'diag':
+            if getattr(r, 'sub_function_code', None) != ex['sub']:
+                return False, 'sub-function %s, sent %s' % (getattr(r, 'sub_function_code', None), ex['sub'])
+            if _words(r.message) != ex['words']:
+                return False, 'diagnostic data %s, sent %s' % (str(_words(r.message))[:40], str(ex['words'])[:40])
+        elif fn == 'get_comm_event_counter':
+            if r.count != ex['count'] or bool(r.status) != (not ex['busy']):
+                return False, 'event counter %s/ready=%s, sent %s/busy=%s' % (r.count, r.status, ex['count'], ex['busy'])
+        elif fn == 'get_comm_event_log':
+            got = (bool(r.status), r.event_count, r.message_count, [int(e) for e in r.events])
+            want = (not ex['busy'], ex['event_count'], ex['message_count'], ex['events'])
+            if got != want:
+                return False, 'event log %s, sent %s' % (str(got)[:60], str(want)[:60])
+        elif fn == 'report_slave_id':
+            ident = bytes(r.identifier)
+            # the identifier is device specific; the library hands over the raw bytes after the byte count
+            if not ident.startswith(bytes.fromhex(ex['ident'])) or bool(r.status) != ex['run']:
+                return False, 'slave id %s run=%s, sent %s run=%s' % (ident.hex()[:20], r.status, ex['ident'][:20], ex['run'])
+        elif fn == 'read_fifo_queue':
+            if [int(v) for v in r.values] != ex['values']:
+                return False, 'fifo values %s, sent %s' % (str(list(r.values))[:40], str(ex['values'])[:40])
+        elif fn == 'read_file_record':
+            got = [bytes(x.record_data).hex() for x in r.records]
+            if got != ex['record_data']:
+                return False, 'file records %s, sent %s' % (str(got)[:50], str(ex['record_data'])[:50])
+        elif fn == 'write_file_record':
+            got = [[x.file_number, x.record_number, bytes(x.record_data).hex()] for x in r.records]
+            if got != [list(x) for x in ex['records']]:
+                return False, 'file record echo %s, sent %s' % (str(got)[:50], str(ex['records'])[:50])
+        elif fn == 'read_device_information':
+            got = (r.read_code, r.conformity, r.more_follows, r.next_object_id,
+                   sorted([int(k), bytes(v).hex()] for k, v in r.information.items()))
+            want = (ex['read_code'], ex['conformity'], ex['more'], ex['next'], sorted([int(k), v] for k, v in ex['objects']))
+            if got != want:
+                return False, 'device information %s, sent %s' % (str(got)[:70], str(want)[:70])
+    except Exception as e:      # an attribute the class documents is missing or of another shape
+        return False, 'returned %s does not carry the reply fields (%s: %s)' % (type(r).__name__, type(e).__name__, e)
     return True, ''
 
 
